@@ -26,6 +26,9 @@ let () =
   register "c13_p2sh_p2wsh_script_pubkey" (function [a; v] -> rb (Model.c13_p2sh_p2wsh_script_pubkey sha256 ripemd160 (vb a) (vi v)) | _ -> arity ());
   register "c13_p2sh_p2wsh_script_sig" (function [a] -> rb (Model.c13_p2sh_p2wsh_script_sig sha256 (vb a)) | _ -> arity ());
   register "c13_canonical" (function [a] -> ROk (VBool (Model.c13_canonical (vb a))) | _ -> arity ());
+  register "c13_witness_parse" (function [a] ->
+      of_result (fun (raw, rest) -> VT [VB raw; VB rest]) (Model.c13_witness_parse (vb a))
+    | _ -> arity ());
   register "c13_witness_ser" (function [a] -> rb (Model.c13_witness_ser (bl a)) | _ -> arity ());
   register "c13_witness_deser" (function [a] ->
       of_result (fun (items, rest) -> VT [VL (List.map (fun d -> VB d) items); VB rest]) (Model.c13_witness_deser (vb a))
